@@ -399,6 +399,11 @@ def dispatch (st : DState) (fs : List String) : DState × String :=
       let (m, r) := MXS.set (fun (x : Int) => x == 0) st.mx a b v
       ({ st with mx := m }, encMRes (fun _ => "") r)
     | _, _, _ => bad
+  | ["mx.settaxa", taxa] => match decTaxa taxa with
+    | some t =>
+      let (m, r) := MXS.setTaxa st.mx t
+      ({ st with mx := m }, encMRes (fun _ => "") r)
+    | none => bad
   | "mx" :: q => match mxQuery st.mx q with | some r => (st, r) | none => bad
   | ["ar.dump"] => (st, encArena st.ar)
   | ["ar.inv"] => (st, s!"{encBool (AR.checkInv st.ar)} {(AR.liveRoots st.ar).length}")
